@@ -13,6 +13,7 @@ When(k, h, f) ==
          [] k = "SB21" /\ h = "ctor" /\ f \in {"dek", "mac", "nonce", "hpad"} -> "import"   \* the same, padding included
          [] k = "MBI" /\ h = "ctor" /\ f = "ctr_iv" -> "import"                              \* class-level NEEDED_MEMBERS value
          [] k = "SB21" /\ h = "config" /\ f = "hpad" -> "construct"                         \* drawn with the advanced parameters, seen in the export
+         [] k = "SB21KW" /\ f \in {"hpad", "filler1", "filler2"} -> "construct"              \* keywrap statements are executed by load_from_config; seen in the export
          [] k = "HABRT" /\ h = "ctor" /\ f = "dek" -> "const"                                \* "empty bytes = random key" is the all-zero key
          [] f \in Late(k) -> "export"
          [] OTHER -> "construct"
